@@ -1051,6 +1051,13 @@ class Gen:
         elif result and not f.ret:
             raise WbxError(f"fn {name}: result named but no return type")
         sig_end = f.body_s
+        if not f.ret and spec.strip() and re.search(r"\basync\s+fn\b", text[:f.body_s]):
+            # R17: the installed Verus drops the `ensures` of an `async fn` without a return type at `.await`
+            # (measured: with `-> (u: ())` the same clauses arrive); the unit return type is written out
+            if re.search(r"\bwhere\b", text[f.attr_end:f.body_s]):
+                raise WbxError(f"R17: async fn {name} without return type has a where clause")
+            spec = " -> (unit_result: ())\n" + spec
+            bump(log, "R17 async fn without return type: `-> (unit_result: ())` written out")
         if leaf:
             edits.append((f.attr_end, f.attr_end, "#[verifier::external_body]\n    "))
             edits.append((sig_end, f.body_e, "\n" + spec + "\n    { unimplemented!() }"))
